@@ -107,3 +107,10 @@ OBLIGATIONS = [Obligation(
                  "an entry with the same message and severity but an EARLIER time than the run's latest is outside the statement: ignoring or counting it are both accepted",
                  "log statements removed at import"],
 )]
+
+MANIFEST = {
+    "level": "model_checking",
+    "text": "Bounded exhaustive symbolic execution (CrossHair/z3) of the real AggregatedErrorLog.aggregate_with against a reference fold written from the statement: up to 2 calls x 3 entries (quick, at most 5 entries) / 3 calls x 3 entries (thorough, at most 7 entries) with solver-chosen message, severity and unconstrained real created_time per entry.",
+    "note": "Trusted: CrossHair's int/real models (floats treated as reals), z3, the reference fold in props/C35.py. AggregatedErrorLogEntry's validating constructor is bypassed during the symbolic run (pydantic-core C boundary) and used on replay. Entries older than their group's latest time are outside the statement and accepted either way. Longer sequences are outside the claim.",
+    "technique": "symbolic execution of the real code (CrossHair + z3) against a reference fold, bounded exhaustive, counterexample replay",
+}
